@@ -136,6 +136,14 @@ func (a *HypAttributes) Validate() error {
 		}
 	}
 
+	// NOTE: the Warp module builds an sdk.Coins out of the max fee, which panics on a
+	// non zero coin with an invalid denom or a negative amount.
+	if !a.MaxFee.Amount.IsNil() && !a.MaxFee.Amount.IsZero() {
+		if err := a.MaxFee.Validate(); err != nil {
+			return fmt.Errorf("invalid max fee: %w", err)
+		}
+	}
+
 	return nil
 }
 
